@@ -14,20 +14,20 @@ import (
 // C13 — oracle registry one-to-one; stake recoverable; only missed signing is slashed.
 
 type c13Oracle struct {
-	Stake       sdkmath.Int // what the oracle transferred minus penalties paid (model)
-	Known       bool
+	Stake        sdkmath.Int // what the oracle transferred minus penalties paid (model)
+	Known        bool
 	RemovedByGov bool
-	RemovedAt   time.Time
-	SlashedOnce bool
-	Readmitted  bool  // came back by add-delegate after a governance removal (its old stake was undelegated)
-	JoinHeight  int64 // height at which the oracle last came online (model's own record)
+	RemovedAt    time.Time
+	SlashedOnce  bool
+	Readmitted   bool  // came back by add-delegate after a governance removal (its old stake was undelegated)
+	JoinHeight   int64 // height at which the oracle last came online (model's own record)
 }
 
 type c13Model struct {
-	or        map[string]map[string]*c13Oracle // chain -> oracle bech32
+	or          map[string]map[string]*c13Oracle // chain -> oracle bech32
 	slashedSeen bool
-	supplyPre sdkmath.Int
-	balPre    map[string]sdk.Coins
+	supplyPre   sdkmath.Int
+	balPre      map[string]sdk.Coins
 }
 
 func newC13(st *BridgeSt) *c13Model {
